@@ -433,9 +433,33 @@ def gen_ops(rng, valid, invalid, st, v21_or_dict, is_obj, max_ops):
     def via():
         return "method" if (is_obj and rng.random() < 0.5) else "fn"
 
+    def empty_sels():
+        """an empty / falsy but non-None `selectors` argument: still a granular call (it must be rejected,
+        never treated as the object-level call)"""
+        k = rng.choice(["list", "str", "tuple"])
+        if k == "list":
+            return {"selectors": []}
+        if k == "str":
+            return {"selectors": ""}
+        return {"selectors": [], "selectors_tuple": True}
+
     n = rng.randint(3, max_ops)
     while len(ops) < n:
         r = rng.random()
+        if rng.random() < (0.12 if O else 0.04):
+            # every API function with an empty selectors value, preferably naming a marking the object carries
+            name = rng.choice(["remove", "remove", "clear", "set", "add", "get", "is_marked"])
+            mk = rng.choice(sorted(O)) if (O and rng.random() < 0.8) else rng.choice(markings)
+            if rng.random() < 0.25:
+                mk = [mk]
+            op = {"op": name, "via": via()}
+            op.update(empty_sels())
+            if name in ("remove", "set", "add", "is_marked"):
+                op["marking"] = mk
+            if name in ("get", "is_marked"):
+                op.update(flags())
+            ops.append(op)
+            continue
         if r < 0.30:
             sels = pick_sels()
             m = pick_marking(sels)
